@@ -151,8 +151,21 @@ def run(tier: str) -> int:
             elif a[0] == "bounds":
                 afb.min_delta = a[1] * UNIT
                 afb.max_delta = a[2] * UNIT
+            elif a[0] == "ref":
+                afb.reference_variance = a[1] * REF     # (the committee keeps publishing multiples of the constructor's reference)
             else:
                 num, den = exp.pop(0)
+                if den == 0:     # a ratio off the integer lattice: the range is owed, the value is not decided here
+                    try:
+                        afb.update_delta()
+                    except Exception as ex:  # noqa: BLE001
+                        rep.violation(f"raise:update_delta:{type(ex).__name__}", f"update_delta raised {ex!r}", {"case": c})
+                        break
+                    dd = np.asarray(afb.delta, float)
+                    if not (np.all(dd >= afb.min_delta - 1e-15) and np.all(dd <= afb.max_delta + 1e-15)):
+                        rep.violation(f"history:{c['fn']}:{scheme}:out-of-range", f"after actions {c['actions']} delta = {dd.ravel()[:3]} outside [{afb.min_delta}, {afb.max_delta}]", {"case": c, "scheme": scheme})
+                        break
+                    continue
                 want = num / den * UNIT
                 try:
                     afb.update_delta()
